@@ -13,7 +13,9 @@ RULE = ("message sequences (1..40 application requests/answers of 20 B..70 KB wi
         "time, header-internal splits, random splits, coalescing) x recv-size scripts x schedules (round robin; random "
         "walk with line-level preemption in transport/setup/statemachine, p in {0.02,0.1,0.3}); oracle: exactly-once, "
         "in-order, byte-identical delivery through get_message(), DWAs in the order of the DWRs; distinct = distinct "
-        "(segmentation class, schedule hash)")
+        "(segmentation class, schedule hash); plus real-loopback executions (nothing substituted: real threads, epoll, "
+        "kernel TCP on 127.0.0.1): 120 marked requests of 0..20 KB per execution under five segmentation modes, the same oracle, "
+        "followed by a close whose thread and socket release is checked")
 
 
 def build_sequence(rng, n, big=False):
@@ -198,6 +200,11 @@ def attribute(sc, chunks, boundaries):
 
 def run_batch(b):
     acc = harness.Acc()
+    if b.get("real"):
+        # real threads, real kernel sockets on 127.0.0.1, nothing substituted (bvm/realnet.py)
+        from bvm import realnet
+        realnet.run_cases(acc, b["real"])
+        return acc
     for case in b["cases"]:
         execute(acc, case)
     return acc
@@ -230,13 +237,16 @@ def main(tier, seed):
     cases = plan(tier, seed)
     nb = 16 if tier == "quick" else 64
     batches = [{"cases": cases[i::nb]} for i in range(nb)]
+    nreal, per = (4, 1) if tier == "quick" else (16, 6)
+    for i in range(nreal):
+        batches.append({"real": [{"kind": "inbound", "seed": seed * 7919 + i * 101 + j, "role": ("client", "server")[(i + j) % 2]} for j in range(per)]})
     acc = harness.run_workers("checks.c04_inbound", "run_batch", batches, 3000)
     harness.require_vnet_fidelity(acc)
     return harness.finish(PROP, tier, seed, "exploration", acc, RULE,
                           ["vnet is a model of Linux TCP sockets (fidelity self-test in tools/selftest_vnet.py); schedules are explored at "
                            "synchronisation-operation and source-line granularity of transport.py/setup.py/statemachine.py",
                            "bounded progress: all messages delivered within 3 virtual seconds after the last byte (the unchanged code needs milliseconds)"],
-                          t0, require_counters=("executions", "steps", "recv_chunks"))
+                          t0, require_counters=("executions", "steps", "recv_chunks", "real_loopback_ok"))
 
 
 def replay(w):
